@@ -125,6 +125,8 @@ func init() {
 			obPanicParse(c, "C14.1")
 			obParserSwitches(c, "C14.2")
 			obUnits(c, "C14.3")
+			ob4 := c.R.Ob("C14.4", "ctrl/listener", "lexer and parser report to one collecting listener whose list is what Parse returns", 1)
+			c.SingleCollectingListener(ob4)
 		},
 	}
 }
